@@ -627,6 +627,7 @@ void fb_write_str(char *str, size_t len, const fb_t a, uint_t radix);
  * @param[in] bin			- the byte vector.,
  * @param[in] len			- the buffer capacity.
  * @throw ERR_NO_BUFFER		- if the buffer capacity is not RLC_FP_BYTES.
+ * @throw ERR_NO_VALID		- if the value has a bit at or above RLC_FB_BITS.
  */
 void fb_read_bin(fb_t a, const uint8_t *bin, size_t len);
 
